@@ -34,7 +34,10 @@ package main
 //   errorf       the diverging (NORETURN) method of the parser type
 //   grammar functions (C10.parens): methods of the parser type returning *proto.Query_Expression, told apart by the
 //                oneof wrappers they build: And / Or builders, simple = builder of Not, comparison = builder of Equal only,
-//                grouped = builds nothing and reaches the And/Or builders only through another expression function
+//                grouped = builds nothing and reaches the And/Or builders only through another expression function (or,
+//                when the chain parser is the whole `expr` production, calls it directly and is called by simple).
+//                "Builds" includes what the node constructors build that the function calls — directly or through a
+//                constant package-level table of constructors (funcTargets); And and Or may be one and the same function.
 
 import (
 	"go/constant"
@@ -898,16 +901,36 @@ func (ps *parserShape) resolveParser() {
 		return f != nil && f.Signature.Results().Len() == 1 && typeIs(f.Signature.Results().At(0).Type(), pkgProto, "Query_Expression")
 	}
 	exprFns := filterFns(pm, isExprFn)
-	builds := map[*ssa.Function]map[string]bool{}
-	for _, f := range exprFns {
-		b := map[string]bool{}
+	// What a grammar function builds: the wrappers it allocates itself and those of the node constructors it hands its
+	// operands to — `return newAndExpr(exprs)`, or a constructor selected through a constant package-level table
+	// (`newChainExpr := chainOperators[op]; … return newChainExpr(exprs)`: one function parsing both chains then builds
+	// And and Or). Only functions that cannot parse (parsesNothing) are looked into, so a grammar function is never
+	// credited with what another grammar function builds.
+	var kindsBuilt func(f *ssa.Function, into map[string]bool, depth int)
+	kindsBuilt = func(f *ssa.Function, into map[string]bool, depth int) {
 		allInstrs(f, func(i ssa.Instruction) {
-			if a, ok := i.(*ssa.Alloc); ok {
-				if k, ok := kindOf[namedOf(a.Type())]; ok {
-					b[k] = true
+			switch x := i.(type) {
+			case *ssa.Alloc:
+				if k, ok := kindOf[namedOf(x.Type())]; ok {
+					into[k] = true
+				}
+			case *ssa.Call:
+				if depth >= 3 || x.Call.IsInvoke() || !typeIs(x.Type(), pkgProto, "Query_Expression") {
+					return
+				}
+				targets, _ := ps.funcTargets(x.Call.Value)
+				for _, g := range targets {
+					if g != f && ps.parsesNothing(g) {
+						kindsBuilt(g, into, depth+1)
+					}
 				}
 			}
 		})
+	}
+	builds := map[*ssa.Function]map[string]bool{}
+	for _, f := range exprFns {
+		b := map[string]bool{}
+		kindsBuilt(f, b, 0)
 		builds[f] = b
 	}
 	builder := func(kind string, only bool) func(*ssa.Function) bool {
@@ -919,8 +942,14 @@ func (ps *parserShape) resolveParser() {
 	ps.ParseComparison = ps.choose("comparison parser", hasName(pm, "parseComparison"), isExprFn, filterFns(exprFns, builder("Equal", true)))
 	callsOperator := func(f *ssa.Function) bool { return callsDirectly(f, ps.ParseAnd) || callsDirectly(f, ps.ParseOr) }
 	isGroupedLike := func(f *ssa.Function) bool {
-		if len(builds[f]) != 0 || callsOperator(f) {
+		if len(builds[f]) != 0 {
 			return false
+		}
+		if callsOperator(f) {
+			// the function that parses the chains may be the whole `expr` production (it parses the first operand itself,
+			// no dispatcher in front of it): the grouped-expression function then calls it directly. It is told from a
+			// dispatcher by its caller: the simple-expression function.
+			return f != ps.ParseSimple && callsDirectly(ps.ParseSimple, f)
 		}
 		for _, g := range exprFns {
 			if g != f && callsOperator(g) && callsDirectly(f, g) {
@@ -930,4 +959,128 @@ func (ps *parserShape) resolveParser() {
 		return false
 	}
 	ps.ParseGrouped = ps.choose("grouped-expression parser", hasName(pm, "parseGroupedExpr"), isExprFn, filterFns(exprFns, isGroupedLike))
+}
+
+// globalMapFuncs: the functions held by a package-level map of function values that is built once in the package
+// initialiser and never written anywhere else (decided by globalMapIntKeys, so the keys are integer constants: token kinds).
+func globalMapFuncs(c *Ctx, g *ssa.Global) ([]*ssa.Function, bool) {
+	if _, ok := globalMapIntKeys(c, g); !ok {
+		return nil, false
+	}
+	init := g.Pkg.Func("init")
+	var mk ssa.Value
+	allInstrs(init, func(i ssa.Instruction) {
+		if st, ok := i.(*ssa.Store); ok && st.Addr == ssa.Value(g) {
+			mk = st.Val
+		}
+	})
+	var out []*ssa.Function
+	okAll := true
+	allInstrs(init, func(i ssa.Instruction) {
+		mu, ok := i.(*ssa.MapUpdate)
+		if !ok || mu.Map != mk {
+			return
+		}
+		switch v := peelConv(mu.Value).(type) {
+		case *ssa.Function:
+			out = append(out, v)
+		case *ssa.MakeClosure:
+			if f, ok := v.Fn.(*ssa.Function); ok {
+				out = append(out, f)
+			} else {
+				okAll = false
+			}
+		default:
+			okAll = false
+		}
+	})
+	return out, okAll && len(out) > 0
+}
+
+// funcTargets: the functions a called value can denote — a function or closure itself, an entry of a constant
+// package-level table of functions (`table[kind]`, with or without the presence flag), or a phi of such values. false
+// if some possibility cannot be resolved (a parameter, a field, a table that is written elsewhere).
+func (ps *parserShape) funcTargets(v ssa.Value) ([]*ssa.Function, bool) {
+	seen := map[ssa.Value]bool{}
+	var out []*ssa.Function
+	var visit func(v ssa.Value, depth int) bool
+	visit = func(v ssa.Value, depth int) bool {
+		v = peelConv(v)
+		if seen[v] {
+			return true
+		}
+		seen[v] = true
+		if depth > 4 {
+			return false
+		}
+		switch x := v.(type) {
+		case *ssa.Function:
+			out = append(out, x)
+			return true
+		case *ssa.MakeClosure:
+			f, ok := x.Fn.(*ssa.Function)
+			if ok {
+				out = append(out, f)
+			}
+			return ok
+		case *ssa.Extract:
+			if lk, ok := x.Tuple.(*ssa.Lookup); ok && x.Index == 0 {
+				return visit(lk, depth)
+			}
+		case *ssa.Lookup:
+			if ld, ok := x.X.(*ssa.UnOp); ok && ld.Op == token.MUL {
+				if g, ok := ld.X.(*ssa.Global); ok {
+					fs, ok := globalMapFuncs(ps.c, g)
+					out = append(out, fs...)
+					return ok
+				}
+			}
+		case *ssa.Phi:
+			for _, e := range x.Edges {
+				if !visit(e, depth+1) {
+					return false
+				}
+			}
+			return true
+		}
+		return false
+	}
+	if !visit(v, 0) {
+		return nil, false
+	}
+	return out, true
+}
+
+// parsesNothing: f is a function of the parser package that cannot take part in parsing — it neither is a method of
+// the parser or the lexer nor is handed (or captures) one, and nothing it calls receives from a channel or is a token
+// source. An expression-valued function of this kind (newAndExpr(exprs), a literal in a constructor table) only wraps
+// the operands it is given: a node constructor.
+func (ps *parserShape) parsesNothing(f *ssa.Function) bool {
+	if f == nil || f.Blocks == nil || ps.c.w.pkgPathOf(f) != pkgParser || len(f.FreeVars) != 0 || ps.ParserT == nil {
+		return false
+	}
+	for _, p := range f.Params { // (the receiver is the first parameter)
+		if n := namedOf(p.Type()); n != nil && (n == ps.ParserT || n == ps.LexerT) {
+			return false
+		}
+	}
+	return !ps.c.fc.mayContain(f, func(i ssa.Instruction) bool {
+		if u, ok := i.(*ssa.UnOp); ok && u.Op == token.ARROW {
+			return true
+		}
+		if cc := callCommon(i); cc != nil {
+			if cc.IsInvoke() {
+				return false
+			}
+			g := calleeFunc(cc)
+			if g == nil {
+				if _, isBuiltin := cc.Value.(*ssa.Builtin); isBuiltin {
+					return false
+				}
+				return true // a function value: what it does is unknown
+			}
+			return ps.isTokenSource(g) || (ps.ParserT != nil && g.Signature.Recv() != nil && namedOf(g.Signature.Recv().Type()) == ps.ParserT)
+		}
+		return false
+	}, 4)
 }
